@@ -265,7 +265,11 @@ func runActionCheck(r *core.Run, sp *ActionSpec) {
 				r.Coverage["unreproduced_mismatch_first"] = note
 			}
 			r.Coverage["unreproduced_mismatches"] = unrep
-			if unrep > 5 {
+			lim := 5
+			if r.Thorough {
+				lim = 25 // (the thorough tier replays ten times as many behaviours, for an hour: more occasions for a loaded machine to time out once)
+			}
+			if unrep > lim {
 				core.Fail("%s: %d mismatches that do not reproduce: the run is not deterministic enough to judge", sp.ID, unrep)
 			}
 			delete(reported, sig0)
